@@ -10,7 +10,7 @@ import ast
 import z3
 from .zs import *  # noqa
 from .values import *  # noqa
-from .symex import PyReturn, PyRaise, LoopEnd, vsubst
+from .symex import PyReturn, PyRaise, PyBreak, LoopEnd, vsubst
 from .contract import Ctx, make_symbolic
 
 UNROLL_MAX = 4
@@ -159,7 +159,10 @@ def exec_spec_loop(ex, s, env, seq, spec, ordinal):
             k = IntVal(0)
         head = ex.st.copy()
         ex.assign(s.target, seq.at(k), env)
-        ex.exec_block(s.body, env)
+        try:
+            ex.exec_block(s.body, env)
+        except PyBreak:
+            return          # the loop ends in this (arbitrary) iteration: execution continues after it
         for nm, t, uses in inv_terms(k + 1):
             ex.oblige("loop%d.preserve.%s" % (ordinal, nm), t, spec.tags or con.tags, s.lineno, "loop", uses=uses)
         if spec.step is not None:
